@@ -17,6 +17,7 @@ RULE = ("every flavour x instruction shape x operand field position x values jus
         "by direct construction, by the text assembler, and by the SDK (rotation numerators/denominators, array "
         "initial values and lengths, loop bounds, app ids); each with an in-range twin."
         ' Also numpy-typed integers in every integer field and SDK route, template operands instantiated with unrepresentable values, random magnitudes up to 2^70, several offending fields, offending operands deep inside programs of up to 30 instructions (direct and text), and fresh interpreters whose first use of every shape carried bool / numpy / float operands. '
+        ' Zero-dimensional numpy arrays as operands; SDK rotations under the hardware switch with numerators outside the immediate range. '
         "Non-trivial = the case "
         "carries an out-of-range value; distinct = distinct case description.")
 ASSUMPTIONS = ["'raises' means any exception before bytes are produced (construction, assembling or bytes())",
